@@ -3,3 +3,7 @@ import LettreVerif.Props.C12
 #print axioms LV.C12.encoded_word_roundtrip
 #print axioms LV.C12.word_room_le_45
 #print axioms LV.C12.unstructured_roundtrip
+#print axioms LV.C12.display_name_roundtrip
+#print axioms LV.C12.mailbox_header_read_back
+#print axioms LV.C12.file_name_roundtrip
+#print axioms LV.C12.attachment_and_inline_file_names
